@@ -22,6 +22,7 @@ from __future__ import annotations
 from . import common, translate
 
 MAX_ELEM = 16
+GENERIC_PROBES = [17, 18, 25, 64, 257, 1000]
 
 # literals of `_encode_ugrid` / the encoders / the derived quantities that are not in the dictionaries
 EXTRA_NAMES = [
@@ -92,19 +93,30 @@ def read_conventions():
             notes.append(f"conventions.ugrid.{nm} missing")
             v = []
         lists[nm] = [str(x) for x in v]
-    elem = []
+    elem, generic_from = [], None
     try:
         from uxarray.io._exodus import _get_element_type
 
-        for k in range(1, MAX_ELEM + 1):
+        def named(k):
             try:
-                elem.append((k, str(_get_element_type(k))))
+                return str(_get_element_type(k))
             except (KeyError, IndexError, ValueError):
-                pass
+                return None
+
+        for k in range(1, MAX_ELEM + 1):
+            if named(k) is not None:
+                elem.append((k, named(k)))
+        # is there a rule for sizes beyond the table?  probed far beyond it; the smallest size from which
+        # EVERY probed size has a name (None: some large size has none)
+        if all(named(k) is not None for k in GENERIC_PROBES):
+            k0 = MAX_ELEM + 1
+            while k0 > 1 and named(k0 - 1) is not None:
+                k0 -= 1
+            generic_from = k0
     except Exception as e:  # noqa: BLE001
         notes.append(f"_get_element_type: {type(e).__name__}: {e}")
     return dict(base_str=base_str, base_non=base_non, var_dims=var_dims, var_attrs=var_attrs, lists=lists, elem=elem,
-                start_index=start_index), notes
+                start_index=start_index, generic_from=generic_from), notes
 
 
 def name_table(c=None):
@@ -175,6 +187,10 @@ def gen_conv(notes):
     out.append(f"/-- sizes `k ≤ {MAX_ELEM}` for which `io._exodus._get_element_type(k)` returns a name -/")
     out.append("def EXODUS_ELEMENT_TYPES : List (Nat × String) := ["
                + ", ".join(f"({k}, {_s(v)})" for k, v in c["elem"]) + "]\n")
+    out.append(f"/-- the size from which EVERY probed size (up to {MAX_ELEM}, and {GENERIC_PROBES}) has an element type: the"
+               " function has a rule for sizes beyond its table (`none`: it has not) -/")
+    out.append("def EXODUS_GENERIC_FROM : Option Nat := "
+               + ("none" if c["generic_from"] is None else f"some {c['generic_from']}") + "\n")
     out.append("/-- the table through which names cross the integer-only line protocol -/")
     out.append("def NAMES : List String := [")
     nt = name_table(c)
